@@ -306,6 +306,10 @@ func (ms *Modules) FindModuleByNamespace(ns string) (*Module, error) {
 		if m.Namespace.Name == ns {
 			switch {
 			case m == found:
+			case found != nil && found.Name == m.Name:
+				// Several revisions of one module: the namespace
+				// denotes what the name of the module denotes.
+				found = ms.Modules[m.Name]
 			case found != nil:
 				return nil, fmt.Errorf("namespace %s matches two or more modules (%s, %s)",
 					ns, found.Name, m.Name)
@@ -613,4 +617,7 @@ func (ms *Modules) ClearEntryCache() {
 	defer ms.entryCacheMu.Unlock()
 	ms.entryCache = map[Node]*Entry{}
 	ms.entryInProgress = map[Node]bool{}
+	// The entries that recorded the submodules as merged are gone: a module
+	// converted anew merges its submodules anew.
+	ms.mergedSubmodule = map[string]bool{}
 }
